@@ -5,6 +5,7 @@ MC = {"quick": [("mc-noleak", "MCLdapConn", "MCConn_c13_quick.cfg", 900, 8)],
       "thorough": [("mc-noleak", "MCLdapConn", "MCConn_c13_thorough.cfg", 3000, 12)]}
 PROFILES = {"quick": [("mixed", 150), ("timeouts", 150), ("plain", 100)],
             "thorough": [("mixed", 2500), ("timeouts", 2500), ("plain", 1000), ("long", 300)]}
+SCRIPTS = {"quick": ("GenConn_len4.cfg", 8), "thorough": ("GenConn_len5.cfg", 10)}
 RULE = ("model: NoLeak (quiescent => no ID reserved, both routing tables empty) over every interleaving of two operations incl. "
         "timeouts racing the request dequeue, abandons of finished/timed-out/in-flight operations, early finish; implementation: "
         "seeded histories; the driver's post-state snapshot {used, resultmap keys, searchmap keys} is compared with the model "
@@ -12,8 +13,7 @@ RULE = ("model: NoLeak (quiescent => no ID reserved, both routing tables empty) 
 
 
 def run(tier):
-    return L.run_lane("C13", tier, MC[tier], PROFILES[tier], RULE,
-                      [("snapshot", L.corrupt_snapshot, "inv:NoLeak")])
+    return L.run_lane("C13", tier, MC[tier], PROFILES[tier], RULE, scripts=SCRIPTS[tier], selftests=[("snapshot", L.corrupt_snapshot, "inv:NoLeak")])
 
 
 def replay(path):
